@@ -58,7 +58,7 @@ def floors(tier):
     return {"distinct_nontrivial": 400, "cls:quant:an": 400, "cls:quant:the": 300, "cls:quant:infer": 300,
             "cls:head": 500, "cls:tag:fpred": 300, "cls:tag:cpred": 300, "cls:tag:hastype": 100, "predicate_calls": 5000,
             "cls:ambient_changes_between_results": 300, "cls:query_as_domain": 100, "cls:predicate_that_runs_a_query_of_its_own": 300,
-            "cls:operand_is_an_independent_subquery": 300, "cls:result_iterator_closed_under_ambient_mode": 200, "cls:about_300_results_per_evaluation": 100}
+            "cls:operand_is_an_independent_subquery": 300, "cls:result_iterator_closed_under_ambient_mode": 200, "cls:about_300_results_per_evaluation": 100, "cls:selected_concatenation_of_100_or_more_elements": 100}
 
 
 def _has_pred(c):
@@ -264,6 +264,30 @@ def check_close_under_ambient(case, world, ctx):
         ctx.fail("CLOSE_UNDER_AMBIENT_MODE", {"new_instances_visible_after_closing_under": deltas})
 
 
+def check_long_concatenation(case, world, ctx):
+    """a selected concatenate(...) of 100+ elements whose parent variable takes its domain from a query with a Predicate subclass:
+    the single row (one long list) is the same under every ambient mode"""
+    from entity_query_language import symbolic_mode, an, entity, let
+    from entity_query_language.entity import concatenate
+    ctx.cls("cls:selected_concatenation_of_100_or_more_elements")
+    ps = world["P"][:8]
+    want = [v for p in ps if p.a > 0 for v in p.t20]
+    outs = {}
+    for mode in MODES:
+        with symbolic_mode():
+            y = let(D.P, ps)
+            x = let(D.P, domain=an(entity(y, D.CGt(y, 0))))
+            q = an(entity(concatenate(x.t20)))
+        with _ambient(mode):
+            rows = [list(r) if isinstance(r, (list, tuple)) else ["NOT_A_LIST:" + type(r).__name__] for r in q.evaluate()]
+        outs[mode] = rows
+        if rows != [want]:
+            ctx.fail("LONG_CONCATENATION_UNDER_AMBIENT_MODE", {"ambient": mode, "rows": len(rows), "elements": [len(r) for r in rows][:3],
+                                                                 "expected_elements": len(want),
+                                                                 "first_wrong": next((repr(a_)[:40] for r in rows[:1] for a_, b_ in zip(r, want) if a_ != b_), None)})
+            return
+
+
 def check_case(case, ctx):
     world = D.build_world(case["world"])
     exp = expected(case, world)
@@ -291,6 +315,12 @@ def check_case(case, ctx):
         want = ["rows", exp]
     if exp:
         ctx.nontrivial()
+    if case.get("big") and len(world["P"]) >= 8:
+        try:
+            check_long_concatenation(case, world, ctx)
+        except Exception as e:
+            import traceback
+            ctx.fail("EXC", f"long_concatenation: {type(e).__name__}: {e}\n{traceback.format_exc()[-600:]}")
     if case["quant"] == "infer" and case["head"] and len(exp) >= 2 and not case.get("subquery_operands") and "f_inner" not in repr(case["cond"]):
         try:
             check_close_under_ambient(case, world, ctx)
